@@ -131,6 +131,19 @@ def witness(prog, lines, clause, line):
 def mutate(rnd, prog, lines):
     invs = [i for i, ln in enumerate(lines) if ln['k'] == 'inv' and i + 1 < len(lines) and lines[i + 1]['k'] == 'ret'
             and lines[i + 1]['f'] == 0]
+    def plain_dispatch(i):
+        # the invocation belongs to a dispatch during which nothing structural happened and
+        # which was not stopped (otherwise a missing / repeated invocation can be legitimate)
+        e = lines[i]['e']
+        d = max((j for j in range(i) if lines[j]['k'] == 'disp' and lines[j]['e'] == e), default=None)
+        ends = [j for j in range(i, len(lines)) if lines[j]['k'] == 'dend' and lines[j]['e'] == e]
+        if d is None or not ends or lines[ends[0]]['f'] == 1:
+            return False
+        if any(ln['k'] == 'fire' and ln['e'] == e and ln['d'] >= 100 for ln in lines):
+            return False      # multi-channel fire: not judged for C01
+        return not any(ln['k'] in ('op', 'api') and ln['n'] in ('addh', 'rmh', 'reg', 'unreg', 'stop', 'flush')
+                       for ln in lines[d:ends[0]])
+    invs = [i for i in invs if plain_dispatch(i)]
     if not invs:
         return None
     i = rnd.choice(invs)
